@@ -327,6 +327,8 @@ class Extractor:
                 self.rwall.append((rule, parts[0], parts[1]))
             elif cmd == "rwall-clear":
                 self.rwall = []
+            elif cmd == "rwall-pop":
+                self.rwall.pop()
             elif cmd == "item":
                 close_fn()
                 a = arg.split()
